@@ -4211,7 +4211,11 @@ async fn handle_connected_state_no_dtls(
             inner: inner.clone(),
         };
         // For RTP/SRTP, we pass false as is_client, but it doesn't matter as start_dtls handles it
-        match pc_temp.start_dtls(false).await {
+        let started = pc_temp.start_dtls(false).await;
+        // Only hold a strong reference while it is needed: a strong `Arc` kept for the whole
+        // connected phase would keep the connection alive after the last handle is dropped.
+        drop(pc_temp);
+        match started {
             Err(e) => {
                 debug!("Transport start failed: {}", e);
                 let _ = inner.disconnect_reason.send_if_modified(|cur| {
@@ -4317,7 +4321,9 @@ async fn handle_connected_state(
                     inner: inner.clone(),
                 };
 
-                match pc_temp.start_dtls(is_client).await {
+                let started = pc_temp.start_dtls(is_client).await;
+                drop(pc_temp);
+                match started {
                     Err(e) => {
                         debug!("DTLS start failed: {}", e);
                         let _ = inner.disconnect_reason.send_if_modified(|cur| {
@@ -4341,16 +4347,21 @@ async fn handle_connected_state(
 
                         if let Some(mut dtls_rx) = dtls_state_rx {
                             let grace = inner.config.ice_disconnect_grace;
+                            // Hold only a weak reference while connected (see above); every
+                            // branch upgrades for the duration of its own work.
+                            drop(inner);
                             let (grace_tx, mut grace_rx) = tokio::sync::mpsc::unbounded_channel::<u64>();
                             let mut disconnect_epoch: u64 = 0;
                             loop {
                                 tokio::select! {
                                     _ = &mut rtcp_loop => {
+                                        let Some(inner) = inner_weak.upgrade() else { return false };
                                         propagate_sctp_close_reason(&inner);
                                         break;
                                     }
                                     res = ice_state_rx.changed() => {
                                         if res.is_err() { return false; }
+                                        let Some(inner) = inner_weak.upgrade() else { return false };
                                         let new_state = *ice_state_rx.borrow();
                                         if is_ice_failed_or_closed(new_state) {
                                             return true;
@@ -4382,6 +4393,7 @@ async fn handle_connected_state(
                                     }
                                     res = dtls_rx.changed() => {
                                         if res.is_ok() {
+                                            let Some(inner) = inner_weak.upgrade() else { return false };
                                             let state = dtls_rx.borrow().clone();
                                             if state == crate::transports::dtls::DtlsState::Closed || state == crate::transports::dtls::DtlsState::Failed {
                                                 debug!("DTLS closed/failed, disconnecting PC");
@@ -4403,6 +4415,7 @@ async fn handle_connected_state(
                                     }
                                     Some(epoch) = grace_rx.recv() => {
                                         if epoch == disconnect_epoch {
+                                            let Some(inner) = inner_weak.upgrade() else { return false };
                                             let _ = inner.disconnect_reason.send_if_modified(|cur| {
                                                 if cur.is_none() {
                                                     *cur = Some(DisconnectReason::IceDisconnected);
@@ -4424,16 +4437,21 @@ async fn handle_connected_state(
                             }
                         } else {
                             let grace = inner.config.ice_disconnect_grace;
+                            // Hold only a weak reference while connected (see above); every
+                            // branch upgrades for the duration of its own work.
+                            drop(inner);
                             let (grace_tx, mut grace_rx) = tokio::sync::mpsc::unbounded_channel::<u64>();
                             let mut disconnect_epoch: u64 = 0;
                             loop {
                                 tokio::select! {
                                     _ = &mut rtcp_loop => {
+                                        let Some(inner) = inner_weak.upgrade() else { return false };
                                         propagate_sctp_close_reason(&inner);
                                         break;
                                     }
                                     res = ice_state_rx.changed() => {
                                         if res.is_err() { return false; }
+                                        let Some(inner) = inner_weak.upgrade() else { return false };
                                         let new_state = *ice_state_rx.borrow();
                                         if is_ice_failed_or_closed(new_state) {
                                             return true;
@@ -4465,6 +4483,7 @@ async fn handle_connected_state(
                                     }
                                     Some(epoch) = grace_rx.recv() => {
                                         if epoch == disconnect_epoch {
+                                            let Some(inner) = inner_weak.upgrade() else { return false };
                                             let _ = inner.disconnect_reason.send_if_modified(|cur| {
                                                 if cur.is_none() {
                                                     *cur = Some(DisconnectReason::IceDisconnected);
